@@ -70,14 +70,29 @@ def cases(wire_cases, tier, seed):
         if kind == 51:
             return auth(nh)
         return [nh, 1] + [0] * 14
-    for chain in ([], [0], [60], [43], [44], [51], [0, 60, 43, 44, 51, 60], [60, 43, 60], [44, 51]):
+    iph = []
+    for chain in ([], [0], [60], [43], [44], [51], [0, 60, 43, 44, 51, 60], [60, 43, 60], [44, 51], [60, 60], [43, 43], [0, 60, 43, 60, 60], [60, 0], [44, 44], [51, 51], [43, 44, 60, 51]):
         body = []
         nh = 17
         for kind in reversed(chain):
             body = ext6(kind, nh) + body
             nh = kind
         pl = len(body)
-        out.append({'type': 'iph', 'bytes': [0x60, 0, 0, 0, pl >> 8, pl & 255, nh, 64] + list(range(1, 17)) + list(range(101, 117)) + body})
+        iph.append([0x60, 0, 0, 0, pl >> 8, pl & 255, nh, 64] + list(range(1, 17)) + list(range(101, 117)) + body)
+    out.extend({'type': 'iph', 'bytes': x} for x in iph)
+    # damaged length / control fields: total length / payload length below, inside and beyond the headers, version, IHL
+    for x in [c['bytes'] for c in out if c['type'] == 'iph']:
+        v4 = x[0] >> 4 == 4
+        lo = 2 if v4 else 4
+        ln = (x[lo] << 8) | x[lo + 1]
+        for nl in {0, 1, max(0, ln - 1), max(0, ln - 8), ln + 1, ln + 8, 19, 20, 21, 65535}:
+            d = list(x)
+            d[lo], d[lo + 1] = nl >> 8, nl & 255
+            out.append({'type': 'iph', 'bytes': d})
+            out.append({'type': 'iph', 'bytes': d + [0xEE] * 9})
+        for b0 in (0x44 if v4 else 0x50, 0x00, 0xF5, 0x70):
+            out.append({'type': 'iph', 'bytes': [b0] + x[1:]})
+        out.append({'type': 'iph', 'bytes': x + [0xEE] * 5})
     # typed ICMPv4 header: timestamp messages carry 20 bytes
     for t, c0 in ((13, 0), (14, 0), (13, 1), (8, 0), (3, 4), (12, 0), (200, 7)):
         for n in (0, 4, 7, 8, 9, 19, 20, 21, 30):
